@@ -21,6 +21,15 @@ CHECKS["C03"] = dict(technique="property-based testing (rapid): encode/decode ro
 CHECKS["C04"] = dict(technique="property-based testing (rapid) with structure-aware hostile byte generators + math/big membership models over Fp and Fp2; native go fuzzing of the decoders in the thorough tier",
   text="Byte strings (random, boundary sizes, mutated valid encodings, structure-aware hostile inputs per decoder family) are decoded in every group: no panic, input unmodified, and for accepted values: later operations do not panic, the value is a member of the promised set according to independent models (curve equation over Fp/Fp2, r*P=O for BLS12-381 G1/G2, Euler criterion for QR-512), and its re-encoding decodes to an Equal value. Composite parsers (signatures, proofs, ciphertexts, deals) are driven with mutated honest objects and raw bytes and must return, never panic. Exploration only.",
   note="Trusted: math/big models (self-checked against generators), rapid, Go's fuzzing engine. GT membership is not promised by the property and not checked.", ref="4/C04")
+CHECKS["C06"] = dict(technique="property-based testing (rapid): metamorphic pairing identities on generated G1/G2 points and scalars; differential ValidatePairing vs Pair equality on 11 quadruple shapes",
+  text="For each of the five pairing suites, generated scalars and G1/G2 points (identity, generators, multiples, hashed, sums with projective internals) are pushed through bilinearity, additivity, negation, identity-argument, order and non-degeneracy identities compared by Equal and GT encoding, and ValidatePairing is compared with Pair(..).Equal(Pair(..)) on quadruples that are equal by construction, unrelated, negated or contain identities. Exploration only.",
+  note="Trusted: rapid. No independent pairing model: an error shared by Pair and GT arithmetic that preserves all identities would be invisible (cross-back-end comparison is C18).", ref="4/C06")
+CHECKS["C07"] = dict(technique="property-based testing (rapid): model-based (math/big Horner/Lagrange) checks of share generation and recovery over generated subsets, orders, holes and duplicates; exhaustive subset enumeration for small n",
+  text="Generated (group, t, n, coefficients incl. zero secret/leading coefficient, base, share list with permutation, nil holes, duplicates, too few shares): share values, secret, commitment, full private and public polynomial are compared with a math/big model; refusal below t; Check accepts exactly shares on the polynomial; polynomial addition/multiplication commute with evaluation and commitment; all subsets are enumerated for n<=5 (thorough 7). Exploration only.",
+  note="Trusted: math/big, rapid; group arithmetic itself is C01's subject.", ref="4/C07")
+CHECKS["C19"] = dict(technique="property-based testing (rapid): stateful model-based testing of the three XOFs against a single-shot golang.org/x/crypto reference; metamorphic tests of random.New; exhaustive bias enumeration for random.Int",
+  text="A state machine over Write/Read/XORKeyStream/Reseed/Clone/Reset on a growing set of XOF instances compares every output with a from-scratch single-shot reference on x/crypto (chunk independence, determinism, XOR = Read, clone tracking, reseed, reset). random.New is checked metamorphically (deterministic, consumed bytes only, every reader matters, survives failing readers); random.Bits/Int for range, exactness and dependence on consumed bytes; modulo bias is decided exhaustively over all 1-/2-byte stream prefixes for a list of moduli. Exploration, with the bias sub-space enumerated completely.",
+  note="Trusted: golang.org/x/crypto blake2b/blake2s XOF and SHAKE256; rapid. Documented panics (Write after Read, all readers failing, Bits(0,exact)) are outside the generated domain.", ref="4/C19")
 NOT_YET = {}
 
 def main():
